@@ -95,6 +95,10 @@ class Tree:
         self.sparse = set(m[-1] for m in re.findall(r"Sparsely\w*\(1\.0, q([xy])", expr))
         if "TwoDimensionallySparselyHistogram" in expr:
             self.sparse |= {"x", "y"}
+        # y feeds only leaf arithmetic (never routing): harnesses about aliasing/routing may fix it
+        n_y = len(re.findall(r"\bqy\b", expr))
+        n_leaf_y = len(re.findall(r"H\.(?:Sum|Average|Deviate|Minimize|Maximize)\(qy\)", expr))
+        self.y_leaf_only = n_y > 0 and n_y == n_leaf_y
         self.prims = sorted(set(re.findall(r"HC?\.([A-Z][A-Za-z]+)\(", expr)))
 
     def __repr__(self):
